@@ -5,6 +5,7 @@
 use itertools::Itertools;
 
 use crate::{
+    constant::WORD_SIZE_BITS,
     tc::{lift::Lift, state::TypeCheckerState},
     vm::value::{PackedSpan, RuntimeBoxedVal, RSV, RSVD},
 };
@@ -97,6 +98,9 @@ impl Lift for PackedEncoding {
                 spans_are_valid = spans_are_valid && last_position <= *offset;
                 last_position = offset + size;
             }
+
+            // Nor can they describe bits beyond the end of the word they are packed into
+            spans_are_valid = spans_are_valid && last_position <= WORD_SIZE_BITS;
 
             // In order to prevent issues with inferring types for unused portions of a
             // slot, we drop the portions that are unused. We define being unused as a span
